@@ -201,6 +201,11 @@ def evaluate(c: Dict[str, Any]) -> Tuple[List[Any], Dict[str, Any]]:
             reported = rep_extra
         if sorted(reported) != ports_truth or len(set(reported)) != len(reported):
             out.append(('reported-ports-differ-from-listening-ports', feat, {'reported': reported}, {'listening': ports_truth}))
+        # -- as many TCP ports listen as were configured (each 0 entry asks for one more OS-assigned port)
+        n_configured = (0 if c['unix'] else 1) + len(extras)
+        if len(ports_truth) != n_configured:
+            out.append(('number-of-listening-ports-differs-from-configuration', dict(feat, zeros=sum(1 for e in extras if e is None)),
+                        {'listening': ports_truth}, {'configured_ports': n_configured}))
         # -- every configured endpoint accepts and answers
         want_ports = ([fixed_primary] if (fixed_primary and not c['unix']) else []) + fixed_extras
         endpoints = [(h, pt) for h in hosts for pt in want_ports]
